@@ -114,9 +114,9 @@ func c05Scenarios(u *uni.U, gen *wh.CPGen, la, lb wh.LogCfg) []c05Scenario {
 		{Name: "S14", Props: "C01 C12", Why: "a growth and a fork of log A from the same size while log B is refreshed (B's write must not bring A's old state back)", Init: []wh.Req{up(la, m, 0, 4).Req, up(lb, m, 0, 3).Req},
 			Threads: [][]c05Op{{up(la, m, 4, 6)}, {up(lb, m, 3, 3)}, {up(la, f4, 4, 6)}}},
 		{Name: "S1", Props: "C05 C01 C03", Why: "conflicting first use (the one that loses is refused and must leave the winner's checkpoint in place)", Threads: [][]c05Op{{up(la, m, 0, 4)}, {up(la, f0, 0, 4)}, {get(la)}}},
-		{Name: "S2", Props: "C05 C01", Why: "two growths from 4, each valid alone, together a split view", Init: initA4,
+		{Name: "S2", Props: "C05 C01 C09", Why: "two growths from 4, each valid alone, together a split view", Init: initA4,
 			Threads: [][]c05Op{{up(la, m, 4, 6)}, {up(la, f4, 4, 6)}, {get(la), get(la)}}},
-		{Name: "S3", Props: "C05 C04", Why: "growth vs refresh: lost update / regression", Init: initA4,
+		{Name: "S3", Props: "C05 C04 C09", Why: "growth vs refresh: lost update / regression", Init: initA4,
 			Threads: [][]c05Op{{up(la, m, 4, 6)}, {up(la, m, 4, 4)}, {get(la), get(la)}}},
 		{Name: "S4", Props: "C05 C12", Why: "different logs must not conflict", Init: []wh.Req{up(la, m, 0, 2).Req},
 			Threads: [][]c05Op{{up(la, m, 2, 4)}, {up(lb, m, 0, 3)}, {logs, get(la)}}},
